@@ -115,7 +115,8 @@ Definition loop_ok (pre : str) (lx : lexer) (t : token) (lx' : lexer) : Prop :=
     | None => sp2 = []
     | Some t2 => sp2 = tspell t2 /\ sp2 <> [] /\ tok_wf (pre ++ g ++ tspell t ++ gap2) t2
     end /\
-    sinv_core (pre ++ g ++ tspell t ++ gap2 ++ sp2) lx'.
+    sinv_core (pre ++ g ++ tspell t ++ gap2 ++ sp2) lx' /\
+    nlk t /\ no_nl sp2 = true.
 
 Lemma match_loop_spec prof : forall fuel lx pre,
   sinv_core pre lx -> (length (rest lx) < fuel)%nat ->
@@ -141,7 +142,7 @@ Proof.
     pose proof (match_one_spec prof lx (pre ++ g0) c after start C) as M.
     destruct (match_one prof lx (c :: after) start) as [[r stg| |]| | | | |]; try contradiction; cbn [bind].
     + (* a token *)
-      destruct M as (gap2 & sp2 & rest' & Hs0 & Hne & Hgap & Hwf & Hstg & Hend & Hpos).
+      destruct M as (gap2 & sp2 & rest' & Hs0 & Hne & Hgap & Hwf & Hstg & Hend & Hpos & Hnlk & Hsp2).
       set (sp := tspell (lr_token r)) in *.
       assert (Hcons : exists cons', sp ++ gap2 ++ sp2 = c :: cons' /\ after = cons' ++ rest').
       { destruct sp as [|x sp']; [contradiction|]. cbn [app] in Hs0. inversion Hs0; subst x.
@@ -177,7 +178,7 @@ Proof.
       specialize (IH S2). 
       destruct (match_loop prof f (mkLexer after (start + utf8_len c) (staged lx) (cur_line lx) (line_start lx)))
         as [[[t lx']|]| | | | |]; try (apply IH; lia).
-      * destruct IH as (g & gap2 & sp2 & H1 & H2 & H3 & H4 & H5 & H6 & H7); [lia|].
+      * destruct IH as (g & gap2 & sp2 & H1 & H2 & H3 & H4 & H5 & H6 & H7 & H8 & H9); [lia|].
         cbn [rest] in H1.
         exists (g0 ++ [c] ++ g), gap2, sp2. repeat split; auto.
         -- rewrite Hr, H1. rewrite <- !app_assoc. reflexivity.
@@ -194,10 +195,39 @@ Proof.
 Qed.
 
 (** * The whole token list *)
-Definition stream_staged (pre : str) (lx : lexer) (ts : list token) : Prop :=
+
+(** [pstream]: [stream], plus what kind of token may contain a line feed, plus the line the lexer
+    reports after each token ([current_line()]): the line of the token's last byte *)
+Inductive pstream : str -> str -> list ptoken -> Prop :=
+  | ps_nil pre g : forallb ignorable g = true -> pstream pre g []
+  | ps_cons pre g pt rest_ pts :
+      forallb ignorable g = true -> tspell (pt_tok pt) <> [] -> tok_wf (pre ++ g) (pt_tok pt) ->
+      nlk (pt_tok pt) ->
+      pt_line pt = fst (pos_at (pre ++ g ++ tspell (pt_tok pt))) ->
+      pstream (pre ++ g ++ tspell (pt_tok pt)) rest_ pts ->
+      pstream pre (g ++ tspell (pt_tok pt) ++ rest_) (pt :: pts).
+
+Lemma pstream_stream pre s pts : pstream pre s pts -> stream pre s (map pt_tok pts).
+Proof. induction 1; cbn [map]; constructor; auto. Qed.
+
+Lemma pstream_eq pre pre' s s' ts : pre = pre' -> s = s' -> pstream pre s ts -> pstream pre' s' ts.
+Proof. intros -> ->. auto. Qed.
+
+Lemma pstream_gap p gap s ts : forallb ignorable gap = true -> pstream (p ++ gap) s ts -> pstream p (gap ++ s) ts.
+Proof.
+  intros Hg H. inversion H as [pre g Hi|pre g pt rest_ ts' Hi Hne Hwf Hk Hl Hs]; subst.
+  - apply ps_nil. rewrite forallb_app, Hg, Hi. reflexivity.
+  - rewrite app_assoc. apply ps_cons; auto.
+    + rewrite forallb_app, Hg, Hi. reflexivity.
+    + rewrite app_assoc. exact Hwf.
+    + rewrite Hl. f_equal. f_equal. rewrite <- !app_assoc. reflexivity.
+    + eapply pstream_eq; [| reflexivity | exact Hs]. rewrite <- !app_assoc. reflexivity.
+Qed.
+
+Definition stream_staged (pre : str) (lx : lexer) (ts : list ptoken) : Prop :=
   match staged lx with
-  | None => stream pre (rest lx) ts
-  | Some t2 => exists ts', ts = t2 :: ts' /\ stream pre (rest lx) ts'
+  | None => pstream pre (rest lx) ts
+  | Some t2 => exists pt ts', ts = pt :: ts' /\ pt_tok pt = t2 /\ pt_line pt = fst (pos_at pre) /\ pstream pre (rest lx) ts'
   end.
 
 Definition measure (lx : lexer) : nat :=
@@ -206,55 +236,74 @@ Definition measure (lx : lexer) : nat :=
 Lemma nonempty_length {A} (l : list A) : l <> [] -> (1 <= length l)%nat.
 Proof. destruct l; [contradiction|cbn; lia]. Qed.
 
+Definition staged_ok2 (pre : str) (lx : lexer) : Prop :=
+  match staged lx with
+  | None => True
+  | Some t2 => tspell t2 <> [] /\ no_nl (tspell t2) = true /\ exists pre0, pre = pre0 ++ tspell t2 /\ tok_wf pre0 t2
+  end.
+
+Lemma post_state_line buflen lx ln lc : post_state buflen lx = (ln, lc) -> ln = cur_line lx.
+Proof. unfold post_state. intro H. injection H as <- _. reflexivity. Qed.
+
 Lemma lex_all_spec prof buflen : forall fuel lx pre,
-  sinv_core pre lx -> staged_ok pre lx -> (measure lx < fuel)%nat ->
-  exists pts, lex_all prof fuel buflen lx = Ok pts /\ stream_staged pre lx (map pt_tok pts).
+  sinv_core pre lx -> staged_ok2 pre lx -> (measure lx < fuel)%nat ->
+  exists pts, lex_all prof fuel buflen lx = Ok pts /\ stream_staged pre lx pts.
 Proof.
   induction fuel as [|f IH]; intros lx pre SC SO Hm; [lia|].
-  cbn [lex_all]. unfold lexer_next. unfold stream_staged, staged_ok, measure in *.
+  cbn [lex_all]. unfold lexer_next. unfold stream_staged, staged_ok2, measure in *.
   destruct (staged lx) as [t2|] eqn:Est.
   - (* the staged suffix token comes out first *)
     cbn [bind].
     set (lx0 := mkLexer (rest lx) (idx lx) None (cur_line lx) (line_start lx)).
-    destruct (post_state buflen lx0) as [ln lc].
+    destruct (post_state buflen lx0) as [ln lc] eqn:Eps. apply post_state_line in Eps.
     destruct (IH lx0 pre) as (pts & Hl & Hs).
     + destruct SC as [A B Cc]. constructor; auto.
-    + unfold staged_ok. cbn. exact I.
+    + unfold staged_ok2. cbn. exact I.
     + unfold measure. cbn [rest staged lx0]. lia.
-    + rewrite Hl. cbn [bind]. eexists. split; [reflexivity|]. cbn [map pt_tok].
-      unfold stream_staged in Hs. cbn [staged lx0 rest] in Hs. exists (map pt_tok pts). split; auto.
+    + rewrite Hl. cbn [bind]. eexists. split; [reflexivity|].
+      unfold stream_staged in Hs. cbn [staged lx0 rest] in Hs. eexists. eexists. split; [reflexivity|].
+      cbn [pt_tok pt_line]. repeat split; auto. rewrite Eps. cbn [lx0 cur_line]. destruct SC as [_ B _]. rewrite B. reflexivity.
   - pose proof (match_loop_spec prof (S (length (rest lx))) lx pre SC (Nat.lt_succ_diag_r _)) as M.
     destruct (match_loop prof (S (length (rest lx))) lx) as [[[t lx']|]| | | | |]; try contradiction; cbn [bind].
-    + destruct M as (g & gap2 & sp2 & H1 & H2 & H3 & H4 & H5 & H6 & H7).
-      destruct (post_state buflen lx') as [ln lc].
+    + destruct M as (g & gap2 & sp2 & H1 & H2 & H3 & H4 & H5 & H6 & H7 & H8 & H9).
+      destruct (post_state buflen lx') as [ln lc] eqn:Eps. apply post_state_line in Eps.
       assert (Hlen : length (rest lx) = (length g + (length (tspell t) + (length gap2 + (length sp2 + length (rest lx')))))%nat)
         by (rewrite H1, !app_length; reflexivity).
       pose proof (nonempty_length _ H3) as L1.
+      assert (Hline : ln = fst (pos_at (pre ++ g ++ tspell t))).
+      { rewrite Eps. destruct H7 as [_ B _]. 
+        assert (E : pre ++ g ++ tspell t ++ gap2 ++ sp2 = (pre ++ g ++ tspell t) ++ (gap2 ++ sp2)) by (rewrite <- !app_assoc; reflexivity).
+        rewrite E in B. rewrite pos_at_app_no_nl in B.
+        - rewrite B. reflexivity.
+        - rewrite no_nl_app. rewrite H9, andb_true_r. apply forallb_apos_no_nl. exact H4. }
       destruct (IH lx' (pre ++ g ++ tspell t ++ gap2 ++ sp2)) as (pts & Hl & Hs); auto.
-      * unfold staged_ok. destruct (staged lx') as [t2|]; auto. destruct H6 as (A & B & Cc).
-        split; [rewrite <- A; exact B|]. exists (pre ++ g ++ tspell t ++ gap2). split.
+      * unfold staged_ok2. destruct (staged lx') as [t2|]; auto. destruct H6 as (A & B & Cc).
+        split; [rewrite <- A; exact B|]. split; [rewrite <- A; exact H9|]. exists (pre ++ g ++ tspell t ++ gap2). split.
         -- rewrite A. rewrite <- !app_assoc. reflexivity.
         -- exact Cc.
       * unfold measure. destruct (staged lx') as [t2|].
         -- destruct H6 as (A & B & Cc). pose proof (nonempty_length _ B) as L2. lia.
         -- lia.
-      * rewrite Hl. cbn [bind]. eexists. split; [reflexivity|]. cbn [map pt_tok].
-        rewrite H1. apply st_cons; auto.
+      * rewrite Hl. cbn [bind]. eexists. split; [reflexivity|].
+        rewrite H1. apply (ps_cons pre g (mkPT t ln lc)); auto.
         unfold stream_staged in Hs. destruct (staged lx') as [t2|].
-        -- destruct H6 as (A & B & Cc). destruct Hs as (ts' & E & Hs). rewrite E. subst sp2.
-           apply st_cons; auto.
+        -- destruct H6 as (A & B & Cc). destruct Hs as (pt & ts' & E & Ept & Elin & Hs). rewrite E. subst sp2. cbn [pt_tok].
+           rewrite <- Ept. apply ps_cons; auto.
            ++ apply apos_ignorable; exact H4.
-           ++ eapply tok_wf_eq; [|exact Cc]. rewrite <- !app_assoc. reflexivity.
-           ++ eapply stream_eq; [| reflexivity | exact Hs]. rewrite <- !app_assoc. reflexivity.
-        -- subst sp2. cbn [app]. apply stream_gap; [apply apos_ignorable; exact H4|].
-           eapply stream_eq; [| reflexivity | exact Hs]. rewrite <- !app_assoc, app_nil_r. reflexivity.
-    + eexists. split; [reflexivity|]. cbn [map]. apply st_nil. exact M.
+           ++ rewrite Ept. exact B.
+           ++ rewrite Ept. eapply tok_wf_eq; [|exact Cc]. rewrite <- !app_assoc. reflexivity.
+           ++ left. rewrite Ept. exact H9.
+           ++ rewrite Elin. f_equal. f_equal. rewrite Ept. rewrite <- !app_assoc. reflexivity.
+           ++ eapply pstream_eq; [| reflexivity | exact Hs]. rewrite Ept. rewrite <- !app_assoc. reflexivity.
+        -- subst sp2. cbn [app pt_tok]. apply pstream_gap; [apply apos_ignorable; exact H4|].
+           eapply pstream_eq; [| reflexivity | exact Hs]. rewrite <- !app_assoc, app_nil_r. reflexivity.
+    + eexists. split; [reflexivity|]. apply ps_nil. exact M.
 Qed.
 
 (** ** C12 / C01: the lexer is total and its tokens are the source, cut up *)
-Theorem lex_stream prof src :
+Theorem lex_pstream prof src :
   byte_len src < u32_limit ->
-  exists pts, lex prof src = Ok pts /\ stream [] src (map pt_tok pts).
+  exists pts, lex prof src = Ok pts /\ pstream [] src pts.
 Proof.
   intro Hb. unfold lex.
   destruct (lex_all_spec prof (byte_len src) (2 * length src + 2) (lexer_init src) []) as (pts & Hl & Hs).
@@ -262,6 +311,13 @@ Proof.
   - exact I.
   - unfold measure. cbn. lia.
   - exists pts. split; auto.
+Qed.
+
+Theorem lex_stream prof src :
+  byte_len src < u32_limit ->
+  exists pts, lex prof src = Ok pts /\ stream [] src (map pt_tok pts).
+Proof.
+  intro Hb. destruct (lex_pstream prof src Hb) as (pts & Hl & Hs). exists pts. split; auto. apply pstream_stream. exact Hs.
 Qed.
 
 Corollary lex_total prof src : byte_len src < u32_limit -> exists pts, lex prof src = Ok pts.
